@@ -125,6 +125,8 @@ class Problem(object):
                     self.gs.append(S.SeparableSum(*[mk_func(inst['gs'][j], op.range, p) for op, p in zip(ops, parts)]))
             else:
                 L = odl.MatrixOperator(M.copy(), domain=self.dom)
+                if inst.get('pw', 1) > 1:        # A(x) = M (x .^ pw): nonlinear, derivative depends on the point
+                    L = L * odl.PowerOperator(self.dom, inst['pw'])
                 self.Ls.append(L)
                 self.slices.append(None)
                 if j < len(inst['gs']):
@@ -161,6 +163,8 @@ class Rec(object):
 
 def applicable_concs(inst):
     out = ['rn']
+    if inst.get('pw', 1) > 1:
+        return out
     if inst['solver'] in ('admm', 'dpdc', 'pdhg', 'pg', 'landweber', 'sd', 'cgn', 'dr', 'fb') \
             and len(inst['Ls']) == 1 and len(inst['Ls'][0]) >= 2:
         out.append('block')
@@ -505,7 +509,7 @@ def rel_option_name(d):
     parts = []
     if o.get('istep', 'scalar') != 'scalar':
         parts.append('inner_stepsizes=nonscalar')
-    parts += [k for k in ('random', 'lam_callable', 'projection', 'ls_object', 'omega_list') if o.get(k)]
+    parts += [k for k in ('random', 'lam_callable', 'projection', 'ls_object', 'omega_list', 'nonlinear') if o.get(k)]
     return '+'.join(parts) or 'default'
 
 
@@ -579,7 +583,20 @@ def rel_desc(rnd, solver, fk, gk, force=None):
         o['ls_object'] = rnd.random() < 0.5
     if solver == 'kaczmarz':
         o['omega_list'] = rnd.random() < 0.5
-    if force:
+    if solver in ('landweber', 'kaczmarz', 'sd') and (force == 'nonlinear' or (not force and rnd.random() < 0.3)):
+        # nonlinear forward map A(x) = M (x .^ pw): start near a solution, step small enough to contract
+        o['nonlinear'] = True
+        o.pop('projection', None)
+        pw = rnd.choice([2, 2, 3])
+        d['pw'] = pw
+        sol = [rnd.choice([-2, -1, 1, 2]) for _ in range(n)]
+        d['x0'] = [v + rnd.choice([-0.5, 0.25, 0.5]) for v in sol]
+        M0 = d['Ms'][0][0]
+        d['b'] = [float(sum(a * v ** pw for a, v in zip(row, sol))) for row in M0]
+        jac2 = sum(a * a for row in M0 for a in row) * (pw * 2.5 ** (pw - 1)) ** 2
+        d['tau'] = 2.0 ** -(math.ceil(math.log2(jac2 + 1)) + 1)
+        d['niter'] = rnd.randint(3, 10)
+    if force and force != 'nonlinear':
         if force.startswith('istep='):
             o['istep'] = force.split('=')[1]
             if o['istep'] == 'nonconst':
@@ -654,6 +671,8 @@ def rel_run(d, variant, segments, pass_state=True):
     for Ms, gp in zip(d['Ms'], d['g']):
         ops = [odl.MatrixOperator(np.array(M, dtype=float), domain=dom) for M in Ms]
         L = ops[0] if len(ops) == 1 else odl.BroadcastOperator(*ops)
+        if d.get('pw', 1) > 1:
+            L = L * odl.PowerOperator(dom, d['pw'])
         Ls.append(L)
         gs.append(_rel_func(gp, L.range))
     f = _rel_func(d['f'], dom)
@@ -714,6 +733,8 @@ def rel_run(d, variant, segments, pass_state=True):
             elif sol == 'kaczmarz':
                 M = np.array(d['Ms'][0][0], dtype=float)
                 rows = [odl.MatrixOperator(M[i:i + 1].copy(), domain=dom) for i in range(M.shape[0])]
+                if d.get('pw', 1) > 1:
+                    rows = [r * odl.PowerOperator(dom, d['pw']) for r in rows]
                 S.kaczmarz(rows, x, [r.range.element([d['b'][i]]) for i, r in enumerate(rows)], seg,
                            omega=[d['tau']] * len(rows) if opts.get('omega_list') else d['tau'], projection=proj,
                            callback=rec, callback_loop=opts.get('callback_loop', 'outer'))
